@@ -5,7 +5,9 @@
            function, rstar instantiated by the first-minimiser scan / stable sort.
    S line: the specification computed independently by an exhaustive scan in exact rationals: the set of
            (admissible) candidates at minimal squared coordinate distance, the tolerance in metres by the SI
-           factor of its unit; "unspecified" when the distance is within the relative band [unit_band] of the
+           factor of its unit; coordinates in [-180,180] x [-90,90] INCLUSIVE are valid; a tolerance in Meters is
+           decided exactly, equality included (d <= tol matches, in both matchers, see [spec_point]);
+           "unspecified" when, in another unit, the distance is within the relative band [unit_band] of the
            tolerance (the property leaves the boundary open), when a coordinate is outside the haversine range
            with a tolerance configured, or when the case is compared by id and the minimiser is not unique.
    Payload: `Ok <query after>` or `Err <class> <query after>`.  In by-distance mode (tie cases) the matched ids
@@ -95,7 +97,11 @@ Definition line_em (id : Z) (es : list cand) (tolt : option float) (tolu : optio
 (* ---- S lines: exhaustive scan in exact arithmetic ---- *)
 Inductive sres := SOk (v : json) | SErr | SUnspec.
 
-Definition spec_point (bydist : bool) (tol : option (Q * dist_unit)) (gcq : point -> point -> Q)
+(* [incl]: the convention AT the tolerance: "within tolerance always matches" - a distance EQUAL to the tolerance
+   is a match (d <= tol), for both matchers (both callers pass true; the flag is kept so the other reading can be
+   evaluated).  It is decided exactly when the tolerance is in Meters (no conversion, no rounding); in the other
+   units the relative band around the SI tolerance stays unspecified. *)
+Definition spec_point (incl : bool) (bydist : bool) (tol : option (Q * dist_unit)) (gcq : point -> point -> Q)
                       (cands : list cand) (p : point) : sres :=
   match minimisers p cands with
   | [] => SErr
@@ -110,9 +116,17 @@ Definition spec_point (bydist : bool) (tol : option (Q * dist_unit)) (gcq : poin
           if negb (in_range p && forallb (fun c => in_range (cpt c)) ms) then SUnspec
           else
             let ds := map (fun c => gcq p (cpt c)) ms in
-            if forallb (fun d => Qltb d (tol_m t u * (1 - unit_band))%Q) ds then pick
-            else if forallb (fun d => Qltb (tol_m t u * (1 + unit_band))%Q d) ds then SErr
-            else SUnspec
+            match u with
+            | Meters =>
+                let ok := fun d => if incl then Qle_bool d t else Qltb d t in
+                if forallb ok ds then pick
+                else if forallb (fun d => negb (ok d)) ds then SErr
+                else SUnspec
+            | _ =>
+                if forallb (fun d => Qltb d (tol_m t u * (1 - unit_band))%Q) ds then pick
+                else if forallb (fun d => Qltb (tol_m t u * (1 + unit_band))%Q d) ds then SErr
+                else SUnspec
+            end
       end
   end.
 
@@ -148,7 +162,7 @@ Definition spec_process (match_pt : point -> sres) (ko kd : string) (mst : json)
 Definition line_vs (id : Z) (vs : list cand) (tolt : option float) (tolu : option dist_unit) (gct : gctable)
                    (bydist : bool) (query : json) : string :=
   let mst := mask bydist vs query k_origin_vertex k_destination_vertex (fst (run_vertex vs tolt tolu gct query)) in
-  line "S" id (spec_process (spec_point bydist (tol_q tolt tolu) (gc_lookup_q gct) vs)
+  line "S" id (spec_process (spec_point true bydist (tol_q tolt tolu) (gc_lookup_q gct) vs)
                             k_origin_vertex k_destination_vertex mst query).
 
 Definition spec_adm (rcq : option (list Z)) (lookup : option (list Z)) (truck : truck_table) (c : cand) : bool :=
@@ -161,7 +175,7 @@ Definition line_es (id : Z) (es : list cand) (tolt : option float) (tolu : optio
   line "S" id
     (match read_query mapping query with
      | Ok rcq =>
-         spec_process (spec_point bydist (tol_q tolt tolu) (gc_lookup_q gct) (filter (spec_adm rcq lookup truck) es))
+         spec_process (spec_point true bydist (tol_q tolt tolu) (gc_lookup_q gct) (filter (spec_adm rcq lookup truck) es))
                       k_origin_edge k_destination_edge mst query
      | Err c => payload_err c mst
      | _ => unspecified
